@@ -1623,7 +1623,7 @@ def atomic_diffs(a, b, path="", out=None):
 
 
 _CONVERSIONS = {"builtins.bool", "builtins.dict", "builtins.list", "builtins.tuple", "builtins.int", "builtins.float",
-                "builtins.str", "builtins.iter", "copy.copy", "jax.numpy.asarray", "numpy.asarray", "jax.numpy.array"}
+                "builtins.str", "builtins.iter", "copy.copy", "jax.numpy.asarray", "numpy.asarray", "jax.numpy.array", "numpy.array"}
 
 
 def _numeric_atom(x):
